@@ -148,7 +148,8 @@ def plan_c01(tier, seed, workdir, case):
         gs.append(g)
     # "all byte strings": literals and sets with NUL, 0x80 and 0xff over an alphabet that contains them
     GB = gen.Gen(seed * 1000 + 19, ops=CORE_OPS, max_depth=3 if tier == "quick" else 4,
-                 atoms=["any", "one", "not_one", "string2", "eof", "ab", "bin_one", "bin_one", "bin_not_one", "bin_string", "bin_string", "bin_string"])
+                 atoms=["any", "one", "not_one", "string2", "eof", "ab", "bin_one", "bin_one", "bin_not_one", "bin_string", "bin_string", "bin_string",
+                        "empty_pack", "empty_pack"])
     gb = []
     for _ in range(30 if tier == "quick" else 300):
         g, rej = GB.grammar()
@@ -172,7 +173,8 @@ spec("C01", plan=plan_c01,
      rule="(a) seeded random grammars over seq/sor/star/plus/opt/at/not_at and any/one/not_one/range/string/eof/success/failure with 1..4 "
           "mutually recursive named rules (well-formedness filter: no nullable repetition body, no left recursion), each run on ALL "
           "strings up to length 5 (thorough 7) over its own 4-letter alphabet, shortest first, plus rapidcheck strings <= 20; (a2) the same "
-          "with literals and character sets containing NUL, 0x80 and 0xff over the alphabet {a, NUL, b, 0xff}; (b) every "
+          "with literals and character sets containing NUL, 0x80 and 0xff and with empty packs (one<>, not_one<>, string<>, seq<>, sor<>) over "
+          "the alphabet {a, NUL, b, 0xff}; (b) every "
           "core operator and every 7x7 nesting over adversarial scripted leaves (slots: consume n bytes then succeed/fail/raise/throw per "
           "class of next byte; on failure they rewind only under rewind_mode::required), bare / inside seq / inside sor, with rapidcheck-"
           "generated scripts and inputs.  Each case runs under 5 configurations (apply mode x top-level rewind mode x void actions "
@@ -597,7 +599,7 @@ def mustif_grammars(q, seed, rnd):
     """must_if< errs, ... >::control: custom messages per rule, raise on local failure by default for rules with a message, or
     governed by an explicit errs::raise_on_failure override."""
     gm = gen_grammars(40 if q else 400, seed * 1000 + 43, CORE_OPS + ["must", "if_must", "opt_must", "list_must", "try_catch_return_false", "list", "pad"],
-                      3 if q else 4, rnd, [1, 2], errmsg=True)
+                      3 if q else 4, rnd, [1, 2, 3, 4], veto=True, errmsg=True)  # a rule whose action rejects the match fails locally: failure() hook
     for g in gm:
         L = gen.Lowered(g)
         cts = sorted(set(m.ctype for m in L.nodes if m.ctype and not m.ctype.startswith("tao::pegtl::raise")))
